@@ -16,7 +16,7 @@ import (
 func init() { register("C19", C19) }
 
 func C19(r *core.Run) {
-	r.Rule = "the harness program cmd/wasmchk is compiled with GOOS=js GOARCH=wasm against /repo (compile failure of the tcell package = violation) and run under Node with a recording stand-in for webfiles/tcell.js installed through eval. (1) lifecycle: every sequence over {Suspend, Resume, SetSize, Fini} up to length 4 (340), each call on its own goroutine, followed by a Size() probe; js/wasm is single-threaded, so a call or probe not finished after 2000 scheduler yields is blocked for good. (2) callbacks: every name of WebKeyNames plus printable keys x 16 modifier combinations; onMouseClick/onMouseMove x which 0..3 x 8 modifier sets x 9 mouse-flag settings; paste and focus enabled/disabled. (3) seeded draw histories with the shared shadow model: after each Show/Sync the grid reconstructed from the drawCell calls (text incl. combining, 24-bit fg/bg with the xterm-like 16-colour palette, attribute bits, underline style/colour) is compared, and the set of drawCell targets per Show is held against the changed-cell rule. distinct by construction (sequences, callback cases) / per history."
+	r.Rule = "the harness program cmd/wasmchk is compiled with GOOS=js GOARCH=wasm against /repo (compile failure of the tcell package = violation) and run under Node with a recording stand-in for webfiles/tcell.js installed through eval. (1) lifecycle: every sequence over {Suspend, Resume, SetSize, Fini} up to length 4 (780 with SetSize to a new and to the current size), each call on its own goroutine, followed by a Size() probe; js/wasm is single-threaded, so a call or probe not finished after 2000 scheduler yields is blocked for good. (2) callbacks: every name of WebKeyNames plus printable keys x 16 modifier combinations; onMouseClick/onMouseMove x which 0..3 x 8 modifier sets x 9 mouse-flag settings; paste and focus enabled/disabled. (3) seeded draw histories with the shared shadow model: after each Show/Sync the grid reconstructed from the drawCell calls (text incl. combining, 24-bit fg/bg with the xterm-like 16-colour palette, attribute bits, underline style/colour) is compared, and the set of drawCell targets per Show is held against the changed-cell rule. distinct by construction (sequences, callback cases) / per history."
 	r.Assumptions = []string{"the real tcell.js DOM code is not executed (no DOM under Node): the statement is about the calls tcell makes into JavaScript", "a wide rune in the last column may be drawn as itself or as a blank (the statement does not say)", "mouse expectations are limited to the unambiguous cases (nothing when disabled; pure motion only with MouseMotionEvents; clicks with MouseButtonEvents; drags with drag or motion, not with button-only)"}
 	hdir := filepath.Join(core.VerifDir(), "harness")
 	out := filepath.Join(core.VerifDir(), "bin", "wasmchk.wasm")
